@@ -1,7 +1,8 @@
 """C09 — range cursors enumerate exactly the live keys, in order, in both directions (E2 engine)."""
 from . import e2gen as G
+from . import ri as RI
 
-MODEL_TARGETS = ["theories/Spec/Machine.vo"]
+MODEL_TARGETS = ["theories/Spec/Machine.vo", "theories/Txn/RangeIter.vo"]
 TRUSTED = ["cursor specification = Spec/Cursor.v over the sorted list of live keys in [lo, hi) of the transaction's view; "
            "seek targets are drawn inside the bounds and after running off an end only seeks are issued (as the property states)"]
 ASSUMPTIONS = []
@@ -60,7 +61,18 @@ def explore(ctx):
     r["coverage"]["rule"] = ("cursor programs (seek-first/last, seek inside the bounds, next, prev with reversals at random positions) over key sets "
                              "spread by a prologue over write set, active and immutable memtables and tables on several levels with tiny blocks / "
                              "index partitions; bounds present, absent, empty and inverted; non-trivial = a direction reversal on a positioned cursor")
+    r = RI.merge(r, RI.explore(ctx, "C09"))
+    r["coverage"]["rule"] += ("; plus the overlay layer alone through the public API (fresh store, one committed transaction, a second "
+                              "transaction holding values and tombstones, range_with_options): every committed subset x write-set over 3 keys "
+                              "(quick; 4 keys and bounded / empty / inverted ranges in thorough) x EVERY program to depth 4-5 over "
+                              "{first, last, next, prev, seek below/on/between/above} with only seeks after an unpositioned answer, compared as "
+                              "digests with the reference cursor over the merged live list and with Txn/RangeIter.v; plus random larger "
+                              "multi-byte-key cases with programs of 8-40 operations")
     return r
 
 
-replay = G.replay
+def replay(ctx):
+    text = open(ctx["replay"]).read()
+    if any(l.startswith("> ri ") for l in text.splitlines()):
+        return RI.replay(ctx)
+    return G.replay(ctx)
